@@ -260,6 +260,10 @@ def run(ctx):
              "(if per_iter_alloc) on every path")
     ctx.rule("C02.exec.conflict-path",
              "runQueueDispatch: the conflict arm (setjmp != 0 / catch) reaches abortIteration on every path")
+    ctx.rule("C02.exec.no-early-publication",
+             "an attempt that may still abort publishes nothing: in go<couldAbort=true> setFastPushBack is unreachable, the only "
+             "calls that push to the worklist are commitIteration (after the operator returned) and fastPushBack, and "
+             "UserContext::push flushes early only through the installed fastPushBack hook")
     ctx.rule("C02.exec.thread-context",
              "go<couldAbort>: setThreadContext(&tld.ctx) precedes the first runQueue; setThreadContext(0) on every exit")
     inst = executor_instances(fx)
@@ -343,6 +347,26 @@ def run(ctx):
             ctx.ob("C02.exec.conflict-path", FE + "::runQueueDispatch", ok and args_ok,
                    "conflict arm can return without abortIteration(in-flight item)", fn.loc(), "setjmp",
                    fnkey=f["key"])
+        # worklist pushes only from commitIteration / fastPushBack / initThread (push_initial)
+        for nm, lst in d["fns"].items():
+            if nm in ("commitIteration", "fastPushBack", "initThread"):
+                continue
+            for f in lst:
+                fn = ctx.fn(f)
+                bad = [fn.loc(p) for p, e in fn.events(lambda e: e.get("k") == "call" and e.get("name") in ("push", "push_initial")
+                                                      and (e.get("rp") or "").endswith("wl"))]
+                if bad:
+                    ctx.ob("C02.exec.no-early-publication", FE + "::" + nm, False,
+                           "worklist push outside commitIteration/fastPushBack at %s" % bad, fn.loc(), "wl.push", fnkey=f["key"])
+        for f in d["fns"].get("go", []):
+            fn = ctx.fn(f)
+            ta0 = f.get("targs", "")
+            tail0 = ta0.split("||")[-1].strip() if "||" in ta0 else ""
+            if tail0.startswith("true"):
+                nfp = sum(1 for _ in fn.events(is_call(name="setFastPushBack")))
+                ctx.ob("C02.exec.no-early-publication", FE + "::go", nfp == 0,
+                       "fast push-back is armed in an instantiation whose iterations can abort: pushes of an aborted attempt "
+                       "escape to the worklist", fn.loc(), "setFastPushBack", fnkey=f["key"])
         for f in d["fns"].get("go", []):
             fn = ctx.fn(f)
             could_abort = "go<true" in f["key"] or "|| true" in f.get("targs", "")
@@ -362,6 +386,24 @@ def run(ctx):
                    "thread context not installed before the first runQueue / not cleared on an exit",
                    fn.loc(), "setThreadContext", fnkey=f["key"])
     ctx.floor("ForEachExecutor instantiations with conflict detection", n_abort_inst, 30)
+
+    ups = [f for f in fx.functions if f["qn"] == "galois::UserContext::push" and f["kind"] == "inst"]
+    ctx.floor("UserContext::push instantiations", len(ups), 1)
+    for f in ups[:4]:
+        fn = ctx.fn(f)
+        fp = lambda e: e.get("k") == "call" and (e.get("rp") or "").endswith("fastPushBack") and e.get("op") == "()"
+        hook = lambda t: S(t).endswith("fastPushBack") or (t.get("k") == "call" and "fastPushBack" in S(t))
+        det = []
+        if fn.guarded_positions(fp, hook, True):
+            det.append("early flush not guarded by the installed hook")
+        emp = lambda e: e.get("k") == "call" and e.get("name") in ("emplace_back", "push_back") and (e.get("rp") or "").endswith("pushBuffer")
+        if fn.exit_reachable_without(emp):
+            det.append("push does not buffer the item")
+        other = [fn.loc(p) for p, e in fn.events(lambda e: e.get("k") == "call" and e.get("name") == "push" and "wl" in (e.get("rp") or ""))]
+        if other:
+            det.append("UserContext::push publishes directly")
+        ctx.ob("C02.exec.no-early-publication", "galois::UserContext::push", not det, "; ".join(det), fn.loc(), "push",
+               fnkey=f["key"])
 
     # ---------------------------------------------------------- access control
     ctx.rule("C02.access", "the lock word and neighbourhood link of Lockable, the lock-manager primitives and the "
